@@ -9,7 +9,7 @@ import re
 from ..cfg import CFG
 from ..consteval import Evaluator
 from ..fsm_model import ActionModel, PDU_CLASSES
-from ..loader import AnalysisError, Repo, body_nodoc, dotted, norm, walk_no_nested
+from ..loader import AnalysisError, Repo, body_nodoc, dotted, enclosing, norm, walk_no_nested
 from ..report import Report, VERIF
 
 LEVEL = "proof"
@@ -236,6 +236,50 @@ def run(repo: Repo, rep: Report, tier: str) -> None:
     from .c08 import check_timeout_propagation
     rep.rule("artim-configured", "the ARTIM timer whose expiry raises Evt18 carries the configured ACSE timeout (C08's timeout-propagation)")
     check_timeout_propagation(repo, rep, "artim-configured")
+    check_timer_run_state(repo, rep, "artim-run-state")
+
+
+def check_timer_run_state(repo: Repo, rep: Report, rule: str) -> None:
+    """Evt18 (ARTIM expired) is defined in Sta2 and Sta13 only - exactly the states in which the actions leave
+    the timer running (AE-5 / AA-x start it, AE-6 / AR-x stop it). That holds only while start(), stop() and
+    restart() are the *only* operations that change whether a Timer is running: a getter or the timeout
+    setter that (re)starts a timer makes a stopped ARTIM timer expire in an established association, Evt18
+    meets a state without a transition, the provider thread dies and the connection is never reported closed."""
+    rep.rule(rule, "only Timer.__init__ / start / stop / restart change whether a timer is running")
+    tm = repo.mod("timer")
+    ci = tm.classes.get("Timer")
+    rep.need(ci is not None, "timer.Timer vanished")
+    start = ci.methods.get("start")
+    stop = ci.methods.get("stop")
+    rep.need(start is not None and stop is not None, "timer.Timer.start / stop vanished")
+    state = set()
+    for fn in (start, stop):
+        for n in walk_no_nested(fn):
+            if isinstance(n, ast.Attribute) and isinstance(n.ctx, ast.Store) and norm(n.value) == "self":
+                state.add(n.attr)
+    rep.need(len(state) >= 1, "timer.Timer.start / stop no longer assign the run state")
+    allowed = {"__init__", "start", "stop", "restart"}
+    n = 0
+    every = list(ci.methods.items()) + [(f"{k} (getter)", v) for k, v in ci.getters.items()] + [(f"{k} (setter)", v) for k, v in ci.setters.items()]
+    seen = set()
+    for name, fn in every:
+        if id(fn) in seen:
+            continue
+        seen.add(id(fn))
+        n += 1
+        if name in allowed:
+            continue
+        bad = []
+        for x in walk_no_nested(fn):
+            if isinstance(x, ast.Attribute) and isinstance(x.ctx, (ast.Store, ast.Del)) and norm(x.value) == "self" and x.attr in state:
+                bad.append(x)
+            if isinstance(x, ast.Call) and norm(x.func) in ("self.start", "self.stop", "self.restart"):
+                bad.append(x)
+            if isinstance(x, ast.Call) and dotted(x.func) == "setattr" and x.args and norm(x.args[0]) == "self":
+                bad.append(x)
+        rep.check(not bad, rule, f"timer.Timer.{name}", enclosing(bad[0], (ast.stmt,)) if bad else f"{name}: run state untouched", f"Timer.{name} changes whether the timer is running ({norm(bad[0])[:40] if bad else ''}): a timer the state machine has stopped (the ARTIM timer after AE-6) is running again, expires in a state where Evt18 has no transition (Sta6), the provider thread dies with InvalidEventError, the association is lost and its connection is never reported closed", mod=tm, node=bad[0] if bad else fn)
+    rep.floor("Timer methods / accessors examined", n, 6)
+
 
 def _branch_polarity(conds, pat: str):
     """True iff the path took the branch on which `<x> != 1` / `is_requestor` holds."""
